@@ -183,6 +183,62 @@ def check_settings(cs, col, kind, all_matrices_cap=6000):
             info = D.exc_info(e)
             col.violation('agg_matrix_exception', cs, info, [], where={'exc': info['type'], 'site': info['site'],
                                                                        'phase': 'order'})
+    # in-place edits of one settings object (the repository's own tests do this): a generator built from the edited
+    # object must enumerate / count / validate the EDITED settings, whatever the object was used for before
+    if kind != 'exhaustive' or (len(cs['src']) * len(cs['tgt']) > 1 and S.digest(cs)[0] in '01'):
+        import copy
+        rnd = gen.rng_for('c09edit', S.digest(cs))
+        try:
+            st = B.make_settings(cs)
+            g5 = mx.AggregateAssignmentMatrixGenerator(st)
+            g5.reset_agg_matrix_cache()
+            g5.get_agg_matrix(cache=True)
+            g5.count_all_matrices()
+            cs2 = copy.deepcopy(cs)
+            edit = rnd.choice(['excluded', 'excluded', 'parallel', 'rep'])
+            if edit == 'excluded':
+                if cs2.get('excluded'):
+                    cs2['excluded'] = []
+                    st.excluded = None
+                else:
+                    ij = [rnd.randrange(len(cs['src'])), rnd.randrange(len(cs['tgt']))]
+                    cs2['excluded'] = [ij]
+                    st.excluded = [(st.src[ij[0]], st.tgt[ij[1]])]
+            elif edit == 'parallel':
+                cs2['max_conn_parallel'] = 1 if cs.get('max_conn_parallel') != 1 else 2
+                st.max_conn_parallel = cs2['max_conn_parallel']
+            else:
+                k_ = rnd.randrange(len(cs['src']))
+                cs2['src'][k_]['rep'] = not cs2['src'][k_].get('rep', False)
+                st.src[k_].rep = cs2['src'][k_]['rep']
+            col.count('monitor_inplace_edit_evaluations')
+            col.count('inplace_edit_' + edit)
+            g6 = mx.AggregateAssignmentMatrixGenerator(st)
+            agg6 = g6.get_agg_matrix(cache=True)
+            tot6 = 0
+            for p in pats:
+                ex = B.make_existence(p) if p is not None else mx.NodeExistence()
+                want6 = set(R.settings_matrices(cs2, p))
+                arr = agg6.get(ex)
+                got6 = set() if arr is None else {tuple(tuple(int(v) for v in row) for row in m) for m in arr}
+                tot6 += len(want6)
+                if got6 != want6:
+                    col.violation('enumeration_differs_from_brute_force', cs2,
+                                  {'pattern': p, 'n_ref': len(want6), 'n_got': len(got6), 'edit': edit,
+                                   'before_edit': cs}, [], where={'dir': 'after_inplace_edit', 'edit': edit})
+                    break
+            else:
+                c6 = mx.AggregateAssignmentMatrixGenerator(st).count_all_matrices(max_by_existence=False)
+                if c6 != tot6:
+                    col.violation('count_differs_from_enumeration', cs2, {'count_sum': c6, 'enumerated_sum': tot6,
+                                                                          'edit': edit, 'before_edit': cs}, [],
+                                  where={'cache': 'after_inplace_edit'})
+            g6.reset_agg_matrix_cache()
+            g5.reset_agg_matrix_cache()
+        except Exception as e:  # noqa
+            info = D.exc_info(e)
+            col.violation('agg_matrix_exception', cs, info, [], where={'exc': info['type'], 'site': info['site'],
+                                                                       'phase': 'inplace_edit'})
     if nontrivial:
         col.nontrivial.add(S.digest(cs))
         if len(col.samples) < 2:
